@@ -502,6 +502,19 @@ fn hostile_class_files(thorough: bool) -> Vec<(&'static str, Vec<u8>)> {
 		v.push(("long_chain_of_dynamic_constants", condy_chain(n, false)));
 		v.push(("long_chain_of_dynamic_constants_via_indy", condy_chain(n, true)));
 	}
+	// a label at every bytecode offset a method can have: 65535 one-byte instructions, a line number for each of them, and
+	// an exception range that ends at code_length = 65535 (65536 distinct offsets; a valid class file)
+	for with_end in [false, true] {
+		use crate::classfile::model::{Attr, CClass, CMember, Code, ExcEntry, Insn};
+		let n = 65535usize;
+		let mut insns: Vec<Insn> = vec![Insn::Simple(0); n - 1];
+		insns.push(Insn::Simple(177));
+		let code = Code { max_stack: 1, max_locals: 1, insns, exceptions: if with_end { vec![ExcEntry { start: 0, end: n, handler: 0, catch: None }] } else { vec![] }, attrs: vec![Attr::LineNumberTable((0..n).map(|i| (i, (i % 60000) as u16)).collect())] };
+		let c = CClass { minor: 0, major: 52, access: 0x21, name: "a/Labels".into(), super_class: Some("java/lang/Object".into()), interfaces: vec![], fields: vec![], methods: vec![CMember { access: 9, name: "m".into(), desc: "()V".into(), attrs: vec![Attr::Code(code)] }], attrs: vec![] };
+		if let Ok(e) = encode(&c, &Choices::default()) {
+			v.push(("label_at_every_bytecode_offset", e.bytes));
+		}
+	}
 	// truncated last instructions
 	for code in [&[17u8][..], &[17, 0], &[16], &[18], &[19, 0], &[153, 0], &[200, 0, 0], &[196], &[196, 21], &[196, 132, 0, 1], &[197, 0], &[185, 0, 13, 1], &[186, 0], &[170], &[170, 0, 0, 0], &[171, 0, 0, 0, 0, 0, 0, 0]] {
 		v.push(("truncated_last_instruction", raw_code_class(code, &[], "()V")));
